@@ -414,6 +414,21 @@ fn run(ctx: &mut Ctx, rep: &mut Report) {
             return;
         }
     };
+    // supplementary pass, NOT part of the exhaustive claim: the same items on free-running threads (no
+    // baton), which reaches windows between two adjacent synchronisation operations where the library has
+    // no yield point. Sampling: silence here proves nothing; a mismatch is a real observation.
+    if !ctx.timed_out() {
+        let rounds = ctx.tier.pick(1, 6);
+        let iters = ctx.tier.pick(1500, 6000);
+        for round in 0..rounds {
+            rep.bump("free_running_calls_sampled", (FREE_THREADS * iters) as u64);
+            if let Some((i, got)) = free_running(&cits, &cbase, iters, ctx.shard as usize + round) {
+                rep.violation(&format!("free_running:{}", cits[i].fname()), format!("{} on free-running threads (sampling pass) returned a result different from its fresh-process baseline: {}", cits[i].fname(), &got[..got.len().min(80)]), json!({"kind": "free", "iters": iters, "rot": ctx.shard as usize + round}));
+                break;
+            }
+        }
+        rep.class("free-running sampled");
+    }
     let bound = ctx.tier.pick(2, 3);
     let m = cits.len();
     for a in 0..m {
@@ -437,21 +452,6 @@ fn run(ctx: &mut Ctx, rep: &mut Report) {
                 }
             }
         }
-    }
-    // supplementary pass, NOT part of the exhaustive claim: the same items on free-running threads (no
-    // baton), which reaches windows between two adjacent synchronisation operations where the library has
-    // no yield point. Sampling: silence here proves nothing; a mismatch is a real observation.
-    if !ctx.timed_out() {
-        let rounds = ctx.tier.pick(1, 6);
-        let iters = ctx.tier.pick(1500, 6000);
-        for round in 0..rounds {
-            rep.bump("free_running_calls_sampled", (FREE_THREADS * iters) as u64);
-            if let Some((i, got)) = free_running(&cits, &cbase, iters, ctx.shard as usize + round) {
-                rep.violation(&format!("free_running:{}", cits[i].fname()), format!("{} on free-running threads (sampling pass) returned a result different from its fresh-process baseline: {}", cits[i].fname(), &got[..got.len().min(80)]), json!({"kind": "free", "iters": iters, "rot": ctx.shard as usize + round}));
-                break;
-            }
-        }
-        rep.class("free-running sampled");
     }
     if ctx.timed_out() {
         rep.cap("time budget reached".into());
